@@ -76,6 +76,12 @@ def real_dtype(t):
     return {"float32": "float32", "complex64": "float32"}.get(str(t.dtype), "float64")
 
 
+def vector_dtype(t):
+    """dtype contract of singular / eigen vectors: the argument's floating dtype; LAPACK works in double precision on integer and boolean data"""
+    d = str(t.dtype)
+    return d if d.startswith(("float", "complex")) else "float64"
+
+
 def make_svd_stub(S, rec=None, exact=False, square_u=False):
     """svd_interface by contract (A3): U has orthonormal columns, S >= 0, V has orthonormal rows; with `exact` the
     hypothesis 'the truncated SVD is exact' (U diag(S) V = M) is registered (C09: requested rank >= rank of the unfolding).
@@ -88,9 +94,9 @@ def make_svd_stub(S, rec=None, exact=False, square_u=False):
         if S.name == "sym":
             k = n_eigenvecs
             nonneg = kw.get("non_negative") not in (None, False)   # svd_interface's contract: with the non-negative option both factors are entrywise non-negative (NNDSVD, C05) - and no longer orthonormal
-            U = G.opaque_tensor("SVDU", [G.axis_sizes(matrix)[0], k], matrix.dtype, ortho_axis=None if nonneg else (2 if square_u else 0), nonneg=nonneg)
+            U = G.opaque_tensor("SVDU", [G.axis_sizes(matrix)[0], k], vector_dtype(matrix), ortho_axis=None if nonneg else (2 if square_u else 0), nonneg=nonneg)
             Sv = G.opaque_tensor("SVDS", [k], real_dtype(matrix), nonneg=True)  # contract: singular values are non-negative; dtype real, same precision
-            V = G.opaque_tensor("SVDV", [k, G.axis_sizes(matrix)[1]], matrix.dtype, ortho_axis=None if nonneg else 1, nonneg=nonneg)
+            V = G.opaque_tensor("SVDV", [k, G.axis_sizes(matrix)[1]], vector_dtype(matrix), ortho_axis=None if nonneg else 1, nonneg=nonneg)
             G.NONNEG.add(G.name_of(Sv))
             if exact:
                 G.register_factorisation((G.name_of(U), G.name_of(Sv), G.name_of(V)), matrix)
